@@ -766,6 +766,14 @@ func (cs *ContractSet) loadFile(path string) error {
 			pendingPred.Src += " " + body
 			continue
 		}
+		if kw == "doc" {
+			// documentation pin (decided by docObligations): ends the clause before it
+			if err := finishClause(i); err != nil {
+				return err
+			}
+			lastClause = nil
+			continue
+		}
 		if curLemma != nil {
 			switch kw {
 			case "props":
@@ -895,6 +903,11 @@ func (cs *ContractSet) loadFile(path string) error {
 				}
 				cur.Assigns = append(cur.Assigns, AssignTarget{Src: part, E: e})
 			}
+		case "doc":
+			// documentation pin, decided by the static obligations (docObligations)
+			if err := finishClause(i); err != nil {
+				return err
+			}
 		case "implements":
 			cur.Implements = rest
 		case "inlinecall":
@@ -1015,7 +1028,7 @@ func (cs *ContractSet) loadFile(path string) error {
 			lastClause.Src += " " + body
 		}
 		if kw != "assigns" {
-			if _, isKw := map[string]bool{"props": true, "requires": true, "ensures": true, "tryensures": true, "alloc_bound": true, "site": true, "loop": true, "inline": true, "pure": true, "trusted": true, "noverify": true, "may_panic": true, "callback": true, "ghostparam": true, "implements": true, "inlinecall": true, "resultcontract": true, "implbind": true, "cbinv": true, "ghostset": true, "ghostinit": true, "ghostarg": true}[kw]; isKw {
+			if _, isKw := map[string]bool{"props": true, "requires": true, "ensures": true, "tryensures": true, "alloc_bound": true, "site": true, "loop": true, "inline": true, "pure": true, "trusted": true, "noverify": true, "may_panic": true, "callback": true, "ghostparam": true, "doc": true, "implements": true, "inlinecall": true, "resultcontract": true, "implbind": true, "cbinv": true, "ghostset": true, "ghostinit": true, "ghostarg": true}[kw]; isKw {
 				inAssigns = false
 			}
 		}
